@@ -1158,7 +1158,7 @@ def run(ctx):
                  "entry": entry, "flag": flag, "text": wire[4],
                  "item": list(x) if what == "num" else (x if isinstance(x, str) else [x[0], [list(a) for a in x[1]], x[2]])}
             fam = "escaped-unit: " if what == "num" and (x[3], x[4]) in ESC_UNITS_NEEDED else ""
-            ctx.violation("%sread through %s%s: %s" % (fam, entry, " after %s(%r)" % tuple(POLLUTERS[pk]) if POLLUTERS[pk] else "", d),
+            ctx.violation("%s%s (read through %s%s)" % (fam, d, entry, " after %s(%r)" % tuple(POLLUTERS[pk]) if POLLUTERS[pk] else ""),
                           w, sig_text=json.dumps(wire[4]))
     stats["declaration_path_cases"] = len(dcases)
 
